@@ -36,6 +36,7 @@
 //!   corrupt <hexbyte>            the persisted resumption blob is overwritten with garbage, then restart
 //!   hs <fab> <node> <rid>        CASE handshake up to Sigma3: a RESERVED session with the CASE mode (real `ReservedSession`)
 //!   hsdone <s>                   its last message is acknowledged: the guard is dropped
+//!   rt <kind> <seed>             TLV round trip (store, load, store) of a persisted structure: fab | nets | res | binfo
 //!   coldreset                    restart, `factory_reset` BEFORE `startup`, start-up
 //!   fabrecover <i>               fabric blob <i> damaged, restart (start-up fails), factory reset, restart
 use std::cell::RefCell;
@@ -1072,6 +1073,14 @@ impl World {
                 self.kv.0.borrow_mut().log.clear();
                 if r0 != "ok" && r1 == "ok" && r2 == "ok" { "ok".into() } else { format!("startup:{},reset:{},startup:{}", r0, r1, r2) }
             }
+            "rt" => {
+                // TLV round trip of one persisted structure on objects of its own: store -> load into a
+                // fresh instance -> store again; the two blobs and the two canonical views must be equal
+                match roundtrip(&self.cas, w.get(1).copied().unwrap_or(""), num(2)) {
+                    Ok(()) => "ok".into(),
+                    Err(e) => e,
+                }
+            }
             "bcw" => {
                 // gen_comm.rs:282 `set_breadcrumb`
                 let v = num(2);
@@ -1154,6 +1163,167 @@ impl World {
             }
             _ => "bad".into(),
         }
+    }
+}
+
+/// `rt <kind> <seed>`: values within the capacity limits (boundary sizes included) from the seed
+fn roundtrip(cas: &Rc<Vec<Ca>>, kind: &str, seed: u64) -> Result<(), String> {
+    let mut r = crate::rng::Rng::new(seed ^ 0x5eed_7137);
+    let mut buf = vec![0u8; 8192];
+    let hexs = |b: &[u8]| crate::proto::hex(b);
+    match kind {
+        "fab" => {
+            // a fabric made by the real commissioning path, then filled up to its capacities
+            let mut w = World::new(cas.clone());
+            let ca = r.range(1, 3);
+            let steps = vec![
+                "boot".to_string(),
+                "pase".to_string(),
+                "arm 0 60".to_string(),
+                "csr 0 0".to_string(),
+                format!("root 0 {}", ca),
+                format!("addnoc 0 {} {} {} {} {}", ca, r.range(1, 0xffff_ffff), r.range(1, 0xffff_ffff_ffff), r.range(1, 0xffff_fffe_ffff_ffff), r.range(1, 60000)),
+            ];
+            for st in &steps {
+                let out = w.exec(st);
+                if !(out.starts_with("ok") || out.starts_with('s')) {
+                    return Err(format!("rt-setup:{}:{}", st.split(' ').next().unwrap_or(""), out));
+                }
+            }
+            let n_acl = *r.pick(&[0u64, 1, 2, 3, 3]);
+            for i in 0..n_acl {
+                let _ = w.exec(&format!("acl 0 {}", if r.chance(1, 3) { 0xffff_fffd_0000_0001u64 + i } else { r.range(1, 0xffff_ffef_ffff_ffff) }));
+            }
+            let n_grp = *r.pick(&[0u64, 1, 4, 4]);
+            for i in 0..n_grp {
+                let _ = w.exec(&format!("grp 0 {}", if i == 0 { 65527 } else { r.range(1, 65000) }));
+            }
+            let label_len = *r.pick(&[0usize, 1, 31, 32]);
+            let label: String = (0..label_len).map(|i| (b'a' + (i % 26) as u8) as char).collect();
+            let fi = NonZeroU8::new(1).unwrap();
+            let kv = w.matter.kv(w.kv.clone());
+            let mut persist = FabricPersist::new(&kv);
+            let stored: Result<(), Error> = w.matter.with_state(|state| {
+                let p = state.verif_parts();
+                let fabric = p.fabrics.update_label(fi, &label)?;
+                persist.store(fabric)
+            });
+            stored.map_err(|e| format!("rt-store:{}", code(&e)))?;
+            let key = FABRIC_KEYS_START + 1;
+            let w1 = w.kv.0.borrow().map.get(&key).cloned().ok_or("rt-nokey")?;
+            let c1 = w.matter.with_state(|state| canon_fabrics(&w.cas, &w.noc_serial, state.verif_parts().fabrics));
+            // load into a fresh table, store again
+            let mut fresh = Fabrics::new();
+            let mut store = w.kv.clone();
+            fresh.load_persist(&mut store, &mut buf).map_err(|e| format!("rt-load:{}", code(&e)))?;
+            let c2 = canon_fabrics(&w.cas, &w.noc_serial, &fresh);
+            let kv2 = Kv::default();
+            let m2 = new_matter();
+            let kvacc = m2.kv(kv2.clone());
+            let mut persist2 = FabricPersist::new(&kvacc);
+            persist2.store(fresh.get(fi).ok_or("rt-lost")?).map_err(|e| format!("rt-store2:{}", code(&e)))?;
+            let w2 = kv2.0.borrow().map.get(&key).cloned().ok_or("rt-nokey2")?;
+            if c1 != c2 {
+                return Err(format!("fab-view:[{}]!=[{}]", c1, c2));
+            }
+            if w1 != w2 {
+                return Err(format!("fab-bytes:{}!={}", hexs(&w1), hexs(&w2)));
+            }
+            Ok(())
+        }
+        "nets" => {
+            let mut n: WifiNetworks<4> = WifiNetworks::new();
+            let count = *r.pick(&[0u64, 1, 2, 4, 4]);
+            for i in 0..count {
+                let sl = *r.pick(&[1usize, 2, 31, 32]);
+                let pl = *r.pick(&[0usize, 1, 8, 63, 64]);
+                let mut ssid: Vec<u8> = (0..sl).map(|_| r.range(0, 255) as u8).collect();
+                ssid[0] = i as u8; // distinct networks
+                let pass: Vec<u8> = (0..pl).map(|_| r.range(0, 255) as u8).collect();
+                Networks::add_or_update(&mut n, &WirelessCreds::Wifi { ssid: &ssid, pass: &pass }).map_err(|_| "rt-nets-add".to_string())?;
+            }
+            let _ = Networks::set_managed(&mut n, r.chance(1, 2));
+            let l1 = Networks::save(&n, &mut buf).map_err(|e| format!("rt-save:{}", code(&e)))?.ok_or("rt-nosave")?;
+            let w1 = buf[..l1].to_vec();
+            let mut fresh: WifiNetworks<4> = WifiNetworks::new();
+            Networks::load(&mut fresh, &w1).map_err(|e| format!("rt-load:{}", code(&e)))?;
+            let l2 = Networks::save(&fresh, &mut buf).map_err(|e| format!("rt-save2:{}", code(&e)))?.ok_or("rt-nosave2")?;
+            let w2 = buf[..l2].to_vec();
+            let (c1, c2) = (canon_nets(&mut n), canon_nets(&mut fresh));
+            if c1 != c2 {
+                return Err(format!("nets-view:[{}]!=[{}]", c1, c2));
+            }
+            if w1 != w2 {
+                return Err(format!("nets-bytes:{}!={}", hexs(&w1), hexs(&w2)));
+            }
+            Ok(())
+        }
+        "res" => {
+            let mut c = ResumableSessions::new();
+            let count = *r.pick(&[0u64, 1, 7, 15, 15, 16]);
+            for i in 0..count {
+                let fab = NonZeroU8::new(r.range(1, 254) as u8).unwrap();
+                c.insert_or_update(ResumableSession::verif_new(fab, if r.chance(1, 4) { u64::MAX - 0x1000_0000_0000 } else { r.range(1, u64::MAX / 2) } + i, rid16(r.range(0, u64::MAX / 2))));
+            }
+            let kv1 = Kv::default();
+            let mut s1 = kv1.clone();
+            c.store_persist(&mut s1, &mut buf).map_err(|e| format!("rt-store:{}", code(&e)))?;
+            let w1 = kv1.0.borrow().map.get(&CASE_RESUMPTION_KEY).cloned().ok_or("rt-nokey")?;
+            let mut fresh = ResumableSessions::new();
+            fresh.load_persist(&mut s1, &mut buf).map_err(|e| format!("rt-load:{}", code(&e)))?;
+            let kv2 = Kv::default();
+            let mut s2 = kv2.clone();
+            fresh.store_persist(&mut s2, &mut buf).map_err(|e| format!("rt-store2:{}", code(&e)))?;
+            let w2 = kv2.0.borrow().map.get(&CASE_RESUMPTION_KEY).cloned().ok_or("rt-nokey2")?;
+            let (c1, c2) = (canon_resum(&c), canon_resum(&fresh));
+            if c1 != c2 {
+                return Err(format!("res-view:[{}]!=[{}]", c1, c2));
+            }
+            if w1 != w2 {
+                return Err(format!("res-bytes:{}!={}", hexs(&w1), hexs(&w2)));
+            }
+            Ok(())
+        }
+        "binfo" => {
+            use rs_matter::dm::clusters::basic_info::BasicInfoSettings;
+            use rs_matter::persist::Persist;
+            let mut b = BasicInfoSettings::new();
+            let ll = *r.pick(&[0usize, 1, 31, 32]);
+            let label: String = (0..ll).map(|i| (b'A' + (i % 26) as u8) as char).collect();
+            let _ = b.node_label.push_str(&label);
+            if r.chance(1, 2) {
+                b.set_location(*r.pick(&["XX", "DE", "us"]));
+            }
+            b.local_config_disabled = r.chance(1, 2);
+            b.configuration_version = *r.pick(&[1u32, 2, u32::MAX]);
+            let m = new_matter();
+            let kv1 = Kv::default();
+            {
+                let acc = m.kv(kv1.clone());
+                let mut p = Persist::new(&acc);
+                b.store_persist(&mut p).map_err(|e| format!("rt-store:{}", code(&e)))?;
+            }
+            let key = rs_matter::persist::BASIC_INFO_KEY;
+            let w1 = kv1.0.borrow().map.get(&key).cloned().ok_or("rt-nokey")?;
+            let mut fresh = BasicInfoSettings::new();
+            let mut s1 = kv1.clone();
+            fresh.load_persist(&mut s1, &mut buf).map_err(|e| format!("rt-load:{}", code(&e)))?;
+            let kv2 = Kv::default();
+            {
+                let acc = m.kv(kv2.clone());
+                let mut p = Persist::new(&acc);
+                fresh.store_persist(&mut p).map_err(|e| format!("rt-store2:{}", code(&e)))?;
+            }
+            let w2 = kv2.0.borrow().map.get(&key).cloned().ok_or("rt-nokey2")?;
+            if b != fresh {
+                return Err(format!("binfo-view:{:?}!={:?}", b, fresh).replace(' ', ""));
+            }
+            if w1 != w2 {
+                return Err(format!("binfo-bytes:{}!={}", hexs(&w1), hexs(&w2)));
+            }
+            Ok(())
+        }
+        _ => Err("rt-kind".into()),
     }
 }
 
